@@ -9,7 +9,17 @@ fn is_hex32(s: &str) -> bool {
     s.len() == 32 && s.bytes().all(|b| b.is_ascii_digit() || (b'A'..=b'F').contains(&b))
 }
 
+/// The library keeps the machine id under a fixed path in /tmp: two runs of this engine at the same time (parallel
+/// scratch slots) would disturb each other. An advisory lock serialises them; it is released when the process exits.
+fn lock_machine_id_path() -> Option<std::fs::File> {
+    use std::os::unix::io::AsRawFd;
+    let f = std::fs::OpenOptions::new().create(true).write(true).open("/tmp/dbus_machine_uuid.vh_lock").ok()?;
+    unsafe { libc::flock(f.as_raw_fd(), libc::LOCK_EX) };
+    Some(f)
+}
+
 pub fn run(cfg: &Cfg) {
+    let _path_lock = lock_machine_id_path();
     let mut out = Out::new(&cfg.outdir);
     let mut rng = Prng::new(cfg.seed);
 
